@@ -53,6 +53,7 @@ type frame struct {
 	visits    map[*ssa.BasicBlock]int
 	depth     int
 	skipPhis  bool
+	specReturned bool
 }
 
 type symInput struct {
@@ -118,6 +119,8 @@ type Exec struct {
 	specSteps    int
 	interf       map[*Loc]bool
 	envInputs    int
+	hashApps     []hashApp
+	known        map[*Term]bool
 }
 
 func (e *Exec) unsupported(msg string) {
@@ -189,10 +192,29 @@ func (e *Exec) resync() {
 	}
 }
 
+// learn records literals implied by an asserted path-condition conjunct.
+func (e *Exec) learn(t *Term, val bool) {
+	if e.known == nil {
+		e.known = map[*Term]bool{}
+	}
+	e.known[t] = val
+	switch {
+	case t.Op == OpNot:
+		e.learn(t.Args[0], !val)
+	case t.Op == OpAnd && val:
+		e.learn(t.Args[0], true)
+		e.learn(t.Args[1], true)
+	case t.Op == OpOr && !val:
+		e.learn(t.Args[0], false)
+		e.learn(t.Args[1], false)
+	}
+}
+
 func (e *Exec) assertPC(t *Term) {
 	if t.IsTrue() {
 		return
 	}
+	e.learn(t, true)
 	e.pc = append(e.pc, t)
 	if e.solver == nil {
 		return
@@ -204,6 +226,7 @@ func (e *Exec) assertPC(t *Term) {
 // checkWith asks whether pc ∧ t is satisfiable.
 func (e *Exec) checkWith(t *Term, timeoutMs int) string {
 	if t.IsFalse() {
+		e.solver.Send("(push 1)\n") // keep push/pop balanced: callers always pop
 		return "unsat"
 	}
 	r := e.defineTerm(t)
@@ -233,6 +256,9 @@ func (e *Exec) branch(c *Term) bool {
 	}
 	if e.concrete != nil {
 		e.unsupported("non-constant branch in concrete mode")
+	}
+	if v, ok := e.known[c]; ok {
+		return v
 	}
 	if e.spec > 0 {
 		e.abortSpec("branch")
@@ -271,6 +297,7 @@ func (e *Exec) branch(c *Term) bool {
 		e.prog.stats.addUnknownBranch()
 	}
 	// both (possibly) feasible: fork
+	e.prog.noteFork(e.prog.fset.Position(e.lastPos).String())
 	alt := make([]uint64, pos+1)
 	copy(alt, e.trace)
 	alt[pos] = 0
@@ -862,6 +889,9 @@ func (e *Exec) visitInstr(fr *frame, ins ssa.Instruction) cont {
 		c := e.get(fr, ins.Cond).(*Term)
 		if !c.IsConst() {
 			if e.trySpeculate(fr, ins, c) {
+				if fr.specReturned {
+					return kReturn
+				}
 				return kJump
 			}
 		}
